@@ -71,7 +71,7 @@ func vPayload(w *appstate.VWorld, t types.TxType) []byte {
 	case types.SubmitLongAnswersTx:
 		b, _ = (&attachments.LongAnswerAttachment{Answers: vBytes("att.answers", vChoice("att.answersLen", 3)), Proof: vBytes("att.proof", vChoice("att.proofLen", 2)), Key: vBytes("att.key", vChoice("att.keyLen", 2)), Salt: vBytes("att.salt", vChoice("att.saltLen", 2))}).ToBytes()
 	case types.StoreToIpfsTx:
-		b, _ = (&attachments.StoreToIpfsAttachment{Cid: vBytes("att.cid", vChoice("att.cidLen", 3)), Size: vU32("att.size")}).ToBytes()
+		b, _ = (&attachments.StoreToIpfsAttachment{Cid: vBytes("att.cid", vChoice("att.cidLen", 3)), Size: []uint32{0, 1000, 1 << 20}[vChoice("att.size", 3)]}).ToBytes()
 	case types.SubmitAnswersHashTx:
 		b = vBytes("payload32", 32)
 	case types.CallContractTx:
